@@ -627,11 +627,23 @@ func TestC18(t *testing.T) {
 
 			// tampering / wrong key on stacks whose outermost layer encrypts
 			if strings.HasPrefix(spec.Layers[0], "aes") {
-				for k := range enc {
-					if len(enc) > 64 && k%7 != i%7 {
-						continue
+				positions := make([]int, 0, 96)
+				if len(enc) <= 96 {
+					for k := range enc {
+						positions = append(positions, k)
+					}
+				} else {
+					// header, nonce and tag bytes always; a sample of the body
+					for k := range 16 {
+						positions = append(positions, k, len(enc)-1-k)
 					}
 
+					for range 64 {
+						positions = append(positions, r.intn(len(enc)))
+					}
+				}
+
+				for _, k := range positions {
 					bad := append([]byte(nil), enc...)
 					bad[k] ^= byte(1 << r.intn(8))
 
